@@ -310,6 +310,11 @@ def _expr_interval(prog, f, e, at, depth):
         g = prog.resolve(f, e["fn"])
         if g is not None:
             return _ret_interval(prog, g, depth + 1)
+    if e["k"] == "cond":
+        a = _expr_interval(prog, f, strip_casts(e["t"]), at, depth)
+        b = _expr_interval(prog, f, strip_casts(e["f"]), at, depth)
+        if a and b:
+            return (min(a[0], b[0]), max(a[1], b[1]))
     return None
 
 
@@ -417,13 +422,22 @@ def rule_N3(ctx):
         if c is None:
             continue
         c0, t0 = negate_truth(c, True)
+        lhs = strip_casts(c0["l"]) if c0["k"] == "bin" else None
+        if lhs is not None and lhs["k"] == "ref" and lhs.get("cat") == "local":
+            # a local that holds the lookup result (possibly `path[0] ? bufs_find(path) : -1`)
+            srcs = [rhs for n_, lv_, op_, rhs in stores(f.body)
+                    if lv_["k"] in ("ref", "var") and lv_.get("name") == lhs["name"] and rhs is not None]
+            if len(srcs) == 1 and any(is_call(x, "bufs_find") for x in walk(srcs[0])) and all(
+                    is_call(x, "bufs_find") or x["k"] != "call" for x in walk(srcs[0])):
+                lhs = [x for x in walk(srcs[0]) if is_call(x, "bufs_find")][0]
+                c0 = dict(c0, l=lhs)
         if c0["k"] == "bin" and c0["op"] in (">=", ">") and is_call(strip_casts(c0["l"]), "bufs_find") \
                 and cval(c0["r"]) in (0, -1):
             if (c0["op"] == ">=" and cval(c0["r"]) == 0) or (c0["op"] == ">" and cval(c0["r"]) == -1):
                 found = (b, c0, t0)
     if not found:
-        ctx.violation("ec_edit", "lookup before opening",
-                      "no test `bufs_find(path) >= 0` guards the read")
+        ctx.inconclusive("ec_edit", "lookup before opening",
+                         "no test of the form `bufs_find(path) >= 0` recognised before the read")
         return
     b, c0, t0 = found
     tedge = 0 if t0 else 1
@@ -474,6 +488,10 @@ def rule_N3(ctx):
     # the switch target after the lookup is the found slot
     for c in f.calls("bufs_switch"):
         a = strip_casts(c["args"][0])
+        from ..util import resolve_local
+        a = resolve_local(f, a)
+        if a["k"] == "cond":
+            a = next((x for x in (strip_casts(a["t"]), strip_casts(a["f"])) if is_call(x, "bufs_find")), a)
         if is_call(a, "bufs_find"):
             if key(a) == key(strip_casts(c0["l"])):
                 ctx.ok("ec_edit", "switch to the slot that was found", loc=f.loc(c))
@@ -845,10 +863,37 @@ def rule_X3(ctx):
     prog = ctx.prog
     n = 0
     for f in prog.funcs.values():
-        if not (f.name.startswith("ec_") and f.file == "ex.c"):
+        if f.file != "ex.c":
             continue
         calls = [c for c in f.calls(("lbuf_edit", "lbuf_rd"))]
         if not calls:
+            continue
+        if not f.name.startswith("ec_"):
+            # a helper of the handlers: its range parameters are judged at the call sites
+            pn = [p_["name"] for p_ in f.params]
+            callers = [(g, c) for g in prog.funcs.values() for c in g.calls(f.name)]
+            if not callers or not all(g.name.startswith("ec_") for g, c in callers):
+                continue
+            for c in calls:
+                n += 1
+                okh = True
+                for x in (strip_casts(c["args"][2]), strip_casts(c["args"][3])):
+                    base = x["l"] if (x["k"] == "bin" and x["op"] == "+" and cval(x["r"]) == 1) else x
+                    if not (base["k"] == "ref" and base["name"] in pn):
+                        okh = False
+                        continue
+                    pi = pn.index(base["name"])
+                    for g, cc in callers:
+                        rvg = _range_vars(g)
+                        a = strip_casts(cc["args"][pi])
+                        if not ((a["k"] == "ref" and (a["name"] in rvg or _bounded_loop_var(g, a["name"], rvg)))
+                                or cval(a) == 0 or is_call(a, "lbuf_len")):
+                            okh = False
+                if okh:
+                    ctx.ok(f.name, "%s range comes from validated values of its callers" % c["fn"], loc=f.loc(c))
+                else:
+                    ctx.inconclusive(f.name, "splice range", "helper %s: range arguments not traced to a "
+                                     "validated range" % f.name, f.loc(c))
             continue
         rv = _range_vars(f)
         for c in calls:
